@@ -490,7 +490,8 @@ def register(reg):
         hints={2: ["dense_bound(r, n, max_id_bucket, wit)", "nl_bound(n, elem)",
                    "CH_own_zero(r, cost_matrix_1d, elem, r[elem], n, n)"]},
         exit_hints={1: ["dense_bound(r, n, max_id_bucket, wit)", "dense_exists(r, n, max_id_bucket, wit)"]},
-        focus={"inv.delta": ["SC", "DQS", "DJS", "DAS", "SR_CH", "SL_CH", "SR_AD", "SL_AD", "cumr", "cuml"],
+        focus={"locopt_sem_join": ["SR_CH", "SL_CH", "DJS"], "locopt_sem_add": ["SR_AD", "SL_AD", "DAS"],
+               "inv.delta": ["SC", "DQS", "DJS", "DAS", "SR_CH", "SL_CH", "SR_AD", "SL_AD", "cumr", "cuml"],
                "lemma_call.pairsum": ["SAMEREL", "MIRP"], "lemma_call.dqs": ["rel"],
                "mx_wit": ["chg_wit", "add_wit"], "mx_range": ["chg_wit", "add_wit"], "nonpos": ["cumr", "cuml"],
                "own_zero": ["CH", "TIE"], "dense_bound": ["TOT", "CNT"]},
